@@ -45,6 +45,10 @@ func (w *world) obj(path string) *nObj {
 
 func genObject(c *fw.Ctx, g *gen, proto, path string) nObj {
 	o := nObj{Path: path, ETag: g.etag(), Mod: g.instant()}
+	if y := o.Mod.Year(); y > 1800 && y < 2200 && g.chance(8) {
+		o.Mono = true
+		g.feat("mtime:monotonic-reading")
+	}
 	if g.chance(3) {
 		o.Len = 1 + g.r.Int63n(100000)
 	}
@@ -170,6 +174,10 @@ func genWorld(c *fw.Ctx, g *gen, proto string) *world {
 	w.PutObj = genObject(c, g, proto, w.PutPath)
 	w.PutObj.ETag, w.PutObj.Mod, w.PutObj.Len = "", time.Time{}, 0
 	w.PutRes = nObj{ETag: g.etag(), Mod: g.instant()}
+	if y := w.PutRes.Mod.Year(); y > 1800 && y < 2200 && g.chance(8) {
+		w.PutRes.Mono = true
+		g.feat("mtime:monotonic-reading")
+	}
 	switch g.r.Intn(4) {
 	case 0:
 		g.feat("put:backend-returns-no-path")
